@@ -106,7 +106,14 @@ ASCII = b'abcXYZ019 .-_/'
 
 
 def rand_text(rng, n, full=False):
-    style = rng.choice(['ascii', 'ascii', 'short', 'empty', 'utf8', 'nul-mid'])
+    style = rng.choice(['ascii', 'ascii', 'short', 'empty', 'utf8', 'nul-mid', 'nul-lead', 'blank-edges'])
+    if style == 'nul-lead' and n >= 2:
+        # NULs in FRONT of the text are characters of the field (only trailing NULs are padding)
+        k = rng.randrange(1, n)
+        return (bytes(k) + bytes(rng.choice(ASCII.replace(b' ', b'')) for _ in range(rng.randrange(1, n - k + 1))) + bytes(n))[:n]
+    if style == 'blank-edges' and n >= 3:
+        body = rng.choice([b' ', b'\t', b'\r\n']) + bytes(rng.choice(ASCII) for _ in range(rng.randrange(0, n - 2))) + rng.choice([b' ', b'\t', b'\n', b'\xc2\xa0'])
+        return (body + bytes(n))[:n]
     if style == 'empty':
         return bytes(n)
     if style == 'short':
